@@ -256,12 +256,16 @@ func driveC08(t *testing.T, out *vEmitter) {
 				o.EmailDomains = append([]string(nil), rl.domains...)
 				o.Providers[0].AllowedGroups = rl.groups
 			}})
-			for _, s := range who {
+			for wi, s := range append(append([]*sessionsapi.SessionState(nil), who...), who...) {
 				now := time.Now()
 				exp := now.Add(time.Hour)
 				ss := *s
 				ss.CreatedAt, ss.ExpiresOn = &now, &exp
 				ss.AccessToken = "at"
+				if wi >= len(who) {
+					// the same identities with a session too large for one cookie (numbered parts with the cookie store)
+					ss.AccessToken = "at-" + vIncompressible(5000)
+				}
 				b := e.newBrowser("https://app.example.com")
 				rw := httptest.NewRecorder()
 				if err := e.p.sessionStore.Save(rw, httptest.NewRequest("GET", "https://app.example.com/", nil), &ss); err != nil {
@@ -278,6 +282,15 @@ func driveC08(t *testing.T, out *vEmitter) {
 					}
 				}
 				want := emailOK && groupOK
+				var family []string
+				for _, c := range b.jar.Cookies(b.origin) {
+					if c.Name == e.opts.Cookie.Name || strings.HasPrefix(c.Name, e.opts.Cookie.Name+"_") {
+						family = append(family, c.Name)
+					}
+				}
+				if wi >= len(who) && !redis && len(family) < 2 {
+					t.Fatalf("the large session was not split: %v", family)
+				}
 				for _, target := range []string{"/", "/oauth2/auth", "/oauth2/userinfo", "/oauth2/auth?allowed_groups=admins", "/oauth2/auth?allowed_groups=,admins", "/oauth2/auth?allowed_emails=" + url.QueryEscape(s.Email) + "&allowed_groups=zzz"} {
 					res := b.get(target)
 					served := res.Hit() || res.Status == 202 || (res.Status == 200 && strings.Contains(res.Body, "\"user\""))
@@ -302,11 +315,16 @@ func driveC08(t *testing.T, out *vEmitter) {
 					}
 					if !want && !served {
 						// the refusal clears the session cookie
-						cleared := false
-						for _, c := range res.Cookies {
-							if c.Name == e.opts.Cookie.Name && c.MaxAge < 0 {
-								cleared = true
+						// ... every cookie of the session family the browser presented
+						cleared := len(family) > 0
+						for _, n := range family {
+							del := false
+							for _, c := range res.Cookies {
+								if c.Name == n && c.MaxAge < 0 {
+									del = true
+								}
 							}
+							cleared = cleared && del
 						}
 						if !cleared && target == "/" {
 							out.Violation("authz/refusal-does-not-clear", "a session failing the global rules was refused without clearing its cookie",
